@@ -108,6 +108,9 @@ pub enum CellRef<'gc> {
     L(Gc<'gc, Lock<Option<NodeGc<'gc>>>>),
     R(Gc<'gc, RefLock<Option<NodeGc<'gc>>>>),
     O(Gc<'gc, OnceLock<NodeGc<'gc>>>),
+    /// locks allocated directly in a Gc that hold a WEAK pointer (stored through `Gc<Lock>::set` / `Gc<RefLock>::borrow_mut`)
+    W(Gc<'gc, Lock<Option<GcWeak<'gc, Node<'gc>>>>>),
+    WR(Gc<'gc, RefLock<Option<GcWeak<'gc, Node<'gc>>>>>),
 }
 unsafe impl<'gc> Collect<'gc> for CellRef<'gc> {
     fn trace<T: Trace<'gc>>(&self, cc: &mut T) {
@@ -115,6 +118,8 @@ unsafe impl<'gc> Collect<'gc> for CellRef<'gc> {
             CellRef::L(g) => cc.trace(g),
             CellRef::R(g) => cc.trace(g),
             CellRef::O(g) => cc.trace(g),
+            CellRef::W(g) => cc.trace(g),
+            CellRef::WR(g) => cc.trace(g),
         }
     }
 }
@@ -124,6 +129,8 @@ impl<'gc> CellRef<'gc> {
             CellRef::L(g) => Gc::as_ptr(g) as *const () as usize,
             CellRef::R(g) => Gc::as_ptr(g) as *const () as usize,
             CellRef::O(g) => Gc::as_ptr(g) as *const () as usize,
+            CellRef::W(g) => Gc::as_ptr(g) as *const () as usize,
+            CellRef::WR(g) => Gc::as_ptr(g) as *const () as usize,
         }
     }
     pub fn child(self) -> Option<NodeGc<'gc>> {
@@ -131,6 +138,14 @@ impl<'gc> CellRef<'gc> {
             CellRef::L(g) => g.get(),
             CellRef::R(g) => *g.borrow(),
             CellRef::O(g) => g.get().copied(),
+            CellRef::W(_) | CellRef::WR(_) => None,
+        }
+    }
+    pub fn weak_child(self) -> Option<GcWeak<'gc, Node<'gc>>> {
+        match self {
+            CellRef::W(g) => g.get(),
+            CellRef::WR(g) => *g.borrow(),
+            _ => None,
         }
     }
     pub fn erase(self) -> Gc<'gc, ()> {
@@ -138,6 +153,8 @@ impl<'gc> CellRef<'gc> {
             CellRef::L(g) => Gc::erase(g),
             CellRef::R(g) => Gc::erase(g),
             CellRef::O(g) => Gc::erase(g),
+            CellRef::W(g) => Gc::erase(g),
+            CellRef::WR(g) => Gc::erase(g),
         }
     }
 }
@@ -274,6 +291,8 @@ pub const KLEAF: u8 = 1;
 pub const KCELL_L: u8 = 2;
 pub const KCELL_R: u8 = 3;
 pub const KCELL_O: u8 = 4;
+pub const KCELL_W: u8 = 5;
+pub const KCELL_WR: u8 = 6;
 
 #[derive(Clone, Debug)]
 pub struct SObj {
@@ -660,6 +679,8 @@ impl World {
                         CellRef::L(_) => KCELL_L,
                         CellRef::R(_) => KCELL_R,
                         CellRef::O(_) => KCELL_O,
+                        CellRef::W(_) => KCELL_W,
+                        CellRef::WR(_) => KCELL_WR,
                     };
                     if so.kind != want {
                         viol!("safe.traversal", "object {id}: kind mismatch (cell)");
@@ -671,6 +692,9 @@ impl World {
                         (None, None) => {}
                         (Some(ch), Some(cg)) => st.push((ch, Obj::Node(cg))),
                         (a, b) => viol!("safe.traversal", "cell {id} content: shadow {:?} real {}", a, b.is_some()),
+                    }
+                    if so.w.is_some() != c.weak_child().is_some() {
+                        viol!("safe.traversal", "cell {id} weak content: shadow {:?} real {}", so.w, c.weak_child().is_some());
                     }
                 }
             }
